@@ -264,6 +264,12 @@ class C14(Prop):
         finally:
             sys.stderr = old
         v.info['reparse:%d' % k] = 1
+        if k == 2 and not accepted and not got:
+            # a valid text after a rejected one was refused cleanly: the rejected text may have left in-text
+            # declarations behind ('x x - y ...' declares a variable x of type x before it fails); the statement
+            # only forbids acceptance of underivable texts and unclean failures
+            v.info['reparse:valid-text-refused-cleanly-after-a-rejected-one'] = 1
+            return
         if k == 1 and accepted and not got:
             # re-parsing an accepted text may be refused cleanly (its in-text declarations exist already):
             # the statement only forbids acceptance of underivable texts and unclean failures
